@@ -28,9 +28,13 @@ def sharded(chk):
   if chk.tier == 'thorough':
     configs += [(w, s, n, b) for w in (1, 2, 3) for s in (1, 2, 3, 4) for n in (1, 3, 8) for b in (1, 2)]
   variants = [dict(), dict(prog='filtermap'), dict(agg='meanvar'), dict(agg='meanvar', prog='filtermap')]
-  for workers, shards, n, bsz in configs:
-   for kw in (variants if (workers, shards) in ((2, 3), (3, 4), (2, 2)) or chk.tier == 'thorough' else variants[:1]):
-    name = f'sharded workers={workers} shards={shards} n={n} batch={bsz} {kw or ""}'
+  # `late`: the consuming thread is slow between collecting the outputs and looking at the task states (a pure delay at every
+  # Task.done()), so that the last shard's tail batches and its completion both fall between those two steps of the final round
+  runs = [(cfg, kw, 0) for cfg in configs
+          for kw in (variants if cfg[:2] in ((2, 3), (3, 4), (2, 2)) or chk.tier == 'thorough' else variants[:1])]
+  runs += [(cfg, dict(), 0.03) for cfg in ((2, 1, 4, 3), (3, 2, 6, 1), (2, 2, 5, 1), (3, 1, 6, 2))]
+  for (workers, shards, n, bsz), kw, late in runs:
+    name = f'sharded workers={workers} shards={shards} n={n} batch={bsz} {kw or ""}' + (' consumer slow before the state check' if late else '')
     ref = lib.define_pipeline(n, **kw).make().iterate()
     ref_outs = sorted(map(_key, ref))
     ref_agg = _norm(ref.agg_result) if n else None
@@ -44,7 +48,18 @@ def sharded(chk):
           outs.append(x)
         return True
 
-      status, val = dist.run_with_deadline(run, 30)
+      task_cls, real_done = c.mods.courier_utils.Task, c.mods.courier_utils.Task.done
+      if late:
+        import time as real_time
+
+        def slow_done(self, _d=real_done, _s=real_time.sleep, _late=late):
+          _s(_late)
+          return _d(self)
+        task_cls.done = slow_done
+      try:
+        status, val = dist.run_with_deadline(run, 30)
+      finally:
+        task_cls.done = real_done
       chk.replayed()
       ctx = dict(kind='dist-faultfree', scenario=name)
       if status != 'ok':
